@@ -397,7 +397,7 @@ class VenomCodegenContext:
             # Copy 32 (length word) + ceil32(length) bytes
             copy_len = self.builder.add(padded_len, IRLiteral(32))
             self.copy_memory_dynamic(ptr, val, copy_len)
-        elif src_typ != typ:
+        elif not _same_memory_layout(src_typ, typ):
             # Layout-aware copy for assignments between compatible but not
             # identical memory layouts (e.g. DynArray[Bytes[540]] -> DynArray[Bytes[704]]).
             self._store_memory_typed(dst=ptr, dst_typ=typ, src=val, src_typ=src_typ)
@@ -940,3 +940,13 @@ class VenomCodegenContext:
             raise CompilerPanic("cannot store to CODE")
         else:  # pragma: nocover
             raise CompilerPanic(f"cannot store to: {location}")
+
+
+def _same_memory_layout(a, b) -> bool:
+    """TupleT.__eq__ compares only the (empty) `members` namespace, so any two tuples
+    compare equal; compare member types structurally instead."""
+    if isinstance(a, TupleT) and isinstance(b, TupleT):
+        return len(a.member_types) == len(b.member_types) and all(
+            _same_memory_layout(x, y) for x, y in zip(a.member_types, b.member_types)
+        )
+    return a == b
